@@ -59,6 +59,9 @@ static void auth_gen(Plan *p, uint64_t base_seed, uint64_t variant, int tier)
 		p->defect = D_LEAF_EXPIRED;
 	}
 	p->defect_arg = (int64_t)(rng_u64(&v) >> 8);
+	/* trust bundles of 1..7 anchors: the real one plus unrelated roots (a bundle that the
+	 * library refuses as too large makes the run inapplicable) */
+	p->extra_roots = rng_chance(&v, 1, 3) ? (int64_t)rng_below(&v, 7) : 0;
 	if (p->defect == D_DROP_CLIENT_CERT || p->defect == D_EMPTY_CLIENT_CERT || p->defect == D_DROP_CERT_VERIFY) p->interpose = 1;
 	if (p->defect == D_CLOCK_JUMP && p->max_lat_ns == 0) p->max_lat_ns = 2000000;
 }
@@ -218,6 +221,7 @@ static void auth_run(const Plan *p, RunResult *r)
 	conn_run(&q0, good, &tw, p->interpose ? auth_on_record : NULL, auth_pre_run);
 	RunResult rt; memset(&rt, 0, sizeof(rt));
 	honest_oracle(&q0, &tw, &rt);
+	if (tw.setup_refused) { r->twin_failed = 1; snprintf(r->extra + strlen(r->extra), sizeof(r->extra) - strlen(r->extra), " refused_config=1"); return; }
 	if (rt.violated) {
 		r->twin_failed = 1;
 		snprintf(r->extra + strlen(r->extra), sizeof(r->extra) - strlen(r->extra), " twin_failed=\"%s\"", rt.vclass);
@@ -229,6 +233,7 @@ static void auth_run(const Plan *p, RunResult *r)
 	sim_ambient_entropy_seed((uint64_t)p->plan_seed ^ (uint64_t)p->defect_arg);   /* defective credentials are a function of the plan */
 	if (!build_defect(p, good, &bad, &q, note, sizeof(note))) { r->twin_failed = 1; return; }
 	conn_run(&q, &bad, &o, q.interpose ? auth_on_record : NULL, auth_pre_run);
+	if (o.setup_refused) { r->twin_failed = 1; return; }
 
 	int verifier = p->defect_role == 0 ? 0 : 1;
 	int interposer_defect = p->defect == D_DROP_CLIENT_CERT || p->defect == D_EMPTY_CLIENT_CERT || p->defect == D_DROP_CERT_VERIFY;
